@@ -11,8 +11,8 @@ from .common import LEAN, SRC, VERIF, add_failure, bump, new_outcome
 _add_failure = add_failure
 
 PROP = "C17"
-PROPS_FILES = ["CogentModel/Props/C17.lean", "CogentModel/Props/C17X.lean"]
-LEAN_TARGETS = ["CogentModel.Props.C17", "CogentModel.Props.C17X"]
+PROPS_FILES = ["CogentModel/Props/C17.lean", "CogentModel/Props/C17X.lean", "CogentModel/Props/C17H.lean"]
+LEAN_TARGETS = ["CogentModel.Props.C17", "CogentModel.Props.C17X", "CogentModel.Props.C17H"]
 DRIVER = "drv_c17"
 TRUSTED = [
     "translator/sql2lean.py (SQL f-strings of _matching_conditions -> Gen/C17Sql.lean); self-tested each run against "
@@ -42,7 +42,7 @@ ASSUMPTIONS = [
     "GFF IDs are unique per feature (rows sharing an ID are one multi-span feature), as GFF3 requires; in multi-file "
     "(glob) loads the generated IDs are unique across the files as well (the same ID in two files is not probed)",
     "num_matches is compared with the scan for every argument subset incl. attributes (substring search, as in the "
-    "two query methods); the model's numMatches mirrors the code (attributes compared with `=`)",
+    "two query methods); the model's numMatches mirrors the code (attributes wrapped like the query methods)",
     "on_alignment=True selects the alignment features only, on_alignment=False everything that is not one (loaded rows "
     "included), not passing it everything; user rows always store 0 / 1 (add_feature)",
     "a GenBank feature whose location has no usable coordinates (`a^b`, remote accession, `(a.b)..c`) denotes a record "
@@ -1575,7 +1575,7 @@ def _x_correspondence(ctx, out, scratch):
 
     rng = ctx.subrng("corrx")
     plans = [("genbank", "gbft"), ("genbank", "gbdirect"), ("gff", "gff"), ("basic", "add"), ("genbank", "gb"), ("gff", "add")]
-    reqs, metas = [], []
+    reqs, metas, jreqs, jreals = [], [], [], []
     for i in range(ctx.budget(12, 100)):
         kind, how = plans[i % len(plans)]
         case = with_user_calls(rng, _one_block(build_case(rng, kind, how, rng.choice([1, 2, 3, 5]))), rng.choice([0, 2, 3]))
@@ -1599,6 +1599,18 @@ def _x_correspondence(ctx, out, scratch):
             real.append(one)
         reqs.append(("xq", dict(db=xdb_json(db), qs=[_model_q(q) for q in qs])))
         metas.append((kind, how, case, qs, real, len(recs)))
+        # to_json -> deserialise_object of the same (in-memory) db: table by table the same rows, NULL columns included
+        jreqs.append(("xjson", dict(db=xdb_json(db))))
+        jreals.append((case, _real_or_raise(lambda: (lambda d: [srt(_xc(r) for r in d["main"]), srt(_xc(r) for r in d["user"])])(
+            xdb_json(copy_db(db, "json", scratch, f"xj{i}"))))))
+    for (case, one), rep in zip(jreals, ctx.driver.batch(jreqs)):
+        out["evaluations"] += 1
+        mod = [srt(_xc(r) for r in rep["main"]), srt(_xc(r) for r in rep["user"])]
+        bump(out, "x_json_rows_without_location", min(sum(1 for r in rep["main"] if not r["located"]), 3))
+        if mod != one:
+            add_failure(out, "corr", "to_json round trip of the extended model differs from the real db", dict(case=case), mod, one, confirmed=False)
+        elif rep["main"] or rep["user"]:
+            out["nontrivial"].add(("xjson", json.dumps(case["intent"])[:160]))
     for (kind, how, case, qs, real, nrec), rep in zip(metas, ctx.driver.batch(reqs)):
         for q, one, m in zip(qs, real, rep):
             out["evaluations"] += 1
@@ -1616,8 +1628,9 @@ def _x_correspondence(ctx, out, scratch):
             # spec's scan: accept that too, nothing else
             scan_r = srt(_xc(r) for r in m["scan"])
             alt = dict(features=srt(_xc(r, rec=False) for r in m["scan"]), records=scan_r, num=m["scan_num"])
-            for k in ("features", "records", "num"):
-                if k in one and isinstance(mod[k], str) and mod[k] != one[k] and one[k] == alt[k]:
+            # (only get_features_matching is left: records / num_matches mirror the code repaired by 26f741b86 exactly)
+            for k in ("features",):
+                if k in one and mod[k] == "raised TypeError" and mod[k] != one[k] and one[k] == alt[k]:
                     mod[k] = alt[k]
                     bump(out, "x_repaired_branch", k)
             if mod != one:
